@@ -91,6 +91,11 @@ CLAIMED = {
          "Generated-input search: 200k histories quick / 5M thorough of INSERT / UPDATE / DELETE / TRUNCATE / INSERT..SELECT (failing statements and FK cascades included) interleaved with SAVEPOINT, ROLLBACK TO (live, repeated, destroyed) and RELEASE inside one transaction.",
          "Only table contents are compared, as the property states; savepoints later than a released one are never referenced again because the statement does not define their fate.",
          "DESIGN.md §6 C14"),
+ "C33": ("exploration",
+         "model-based (stateful) testing of schema changes: histories of CREATE/DROP TABLE, CREATE/DROP INDEX, ALTER TABLE ADD/DROP/CHANGE COLUMN, ADD/DROP CONSTRAINT and DML with heavy name re-use and identifier case variants, compared after every statement with a model of tables, columns, rows and indexes",
+         "Generated-input search: 40k histories (about 500k statements) quick / 1.5M histories thorough; after every statement: statement validity agrees with the model, list_tables / catalog schema / stored schema / stored rows / SELECT * / SELECT <declared columns> / list_indexes / index-driven probes all equal the model.",
+         "RENAME TABLE, MODIFY COLUMN and dropping/renaming a column used by an index or constraint are outside the generated domain (the statement does not define their outcome); unquoted identifiers only.",
+         "DESIGN.md §6 C33"),
  "C15": ("exploration",
          "invariant testing of index structures: after every statement of a generated history the PK hash index, UNIQUE hash indexes and every user index map are compared with a rebuild from scratch on a clone",
          "Generated-input search: 250k histories quick / 6M thorough with position-shifting deletes, updates of indexed/key columns, DELETE-all/TRUNCATE, INSERT..SELECT; uses only public APIs (primary_key_index, unique_indexes, get_index_data, rebuild_indexes).",
